@@ -163,7 +163,7 @@ class State:
             r = self.p_const_fold(b, what, a, c)
             if r:
                 return True, r
-            for rule in (self.p_counter_step, self.p_bounded_counter_step, self.p_sub_guard, self.p_counted_field):
+            for rule in (self.p_counter_step, self.p_fold_counter, self.p_bounded_counter_step, self.p_sub_guard, self.p_counted_field):
                 r = rule(b, blk, what, a, c, t)
                 if r:
                     return True, r
@@ -458,6 +458,70 @@ class State:
                 continue  # a straight-line increment adds at most 1
         return True
 
+    def fold_counter_closure(self, cdef):
+        """cdef is used only as the step function of one `Iterator::fold` whose initial accumulator is a tuple of zeros, and
+        every component of every accumulator it returns is an old component, an old component + 1, or 0: each component grows
+        by at most one per item.  Returns the fold call's (parent body, terminator) or None."""
+        cb = self.lib.fn(cdef)
+        parent = self.lib.fn(re.sub(r"::\{closure#\d+\}$", "", cdef))
+        if cb is None or parent is None:
+            return None
+        po = self.o(parent)
+        site = None
+        for bb, t in parent.calls():
+            for k, arg in enumerate(t["args"]):
+                if any(x[0] == "closure" and x[1] == cdef for x in po.of_operand(arg)):
+                    if site is not None or t["callee"] != "std::iter::Iterator::fold" or k != 2:
+                        return None
+                    site = t
+        if site is None:
+            return None
+        init = po.of_operand(site["args"][1])
+        if not init or not all(x[0] == "agg" and x[1] == "tuple" and x[2] and all(set(cmp_) == {("const", 0)} for cmp_ in x[2]) for x in init):
+            return None
+        width = {len(x[2]) for x in init}
+        co = self.o(cb)
+        acc = ("param", 2)
+        ret = co.of_local(0)
+        if not ret:
+            return None
+        for r in ret:
+            if not (r[0] == "agg" and r[1] == "tuple" and {len(r[2])} == width):
+                return None
+            for cmp_ in r[2]:
+                for x in cmp_:
+                    old = x[0] == "field" and x[1] == acc
+                    step = (x[0] == "field" and x[2] == "0" and x[1][0] == "bin" and x[1][1] == "AddWithOverflow" and
+                            x[1][2][0] == "field" and x[1][2][1] == acc and x[1][3] == ("const", 1)) or \
+                           (x[0] == "bin" and x[1] == "Add" and x[2][0] == "field" and x[2][1] == acc and x[3] == ("const", 1))
+                    if not (old or step or x == ("const", 0)):
+                        return None
+        return parent, site
+
+    def p_fold_counter(self, b, blk, what, a, c, t):
+        """acc.k + 1 inside the step function of a fold that starts from zeros."""
+        if what != "Overflow(Add)" or t["msg_ops"][1].get("int") != 1 or "{closure#" not in b.name:
+            return None
+        if not a or not all(x[0] == "field" and x[1] == ("param", 2) for x in a):
+            return None
+        if self.fold_counter_closure(b.name) is None:
+            return None
+        return ("P-fold-counter: a component of a fold accumulator that starts at 0 and grows by at most one per item of an in-memory "
+                "iterator cannot overflow")
+
+    def is_fold_component(self, b, loc):
+        """loc holds a component of the result of such a fold."""
+        ts = self.o(b).of_local(loc)
+        if not ts:
+            return False
+        for x in ts:
+            if not (x[0] == "field" and x[1][0] == "call" and x[1][1] == "std::iter::Iterator::fold"):
+                return False
+            fs_ = [y for arg in x[1][2][2:3] for y in arg if y[0] == "closure"]
+            if len(fs_) != 1 or self.fold_counter_closure(fs_[0][1]) is None:
+                return False
+        return True
+
     def p_counted_field(self, b, blk, what, a, c, t):
         """s.f + 1 where the field f of a crate-local struct is, at every construction site, an iteration counter."""
         if what != "Overflow(Add)" or t["msg_ops"][1].get("int") != 1:
@@ -483,7 +547,7 @@ class State:
                     if fld not in fn:
                         return None
                     op = st["rv"]["ops"][fn.index(fld)]
-                    if op.get("k") not in ("copy", "move") or op["p"] or not self.is_iteration_counter(ob, op["l"]):
+                    if op.get("k") not in ("copy", "move") or op["p"] or not (self.is_iteration_counter(ob, op["l"]) or self.is_fold_component(ob, op["l"])):
                         return None
                     sites += 1
         if sites == 0:
